@@ -156,11 +156,13 @@ func newDecompressionReader(reader io.Reader, codec CompressionCodec) (io.ReadCl
 }
 
 func newCompressedJSONLinesWriter(path string, codec CompressionCodec, zstdLevel int) (*compressedJSONLinesWriter, error) {
+	fsStep("fragment.mkdir")
 	if err := os.MkdirAll(filepath.Dir(path), 0o755); err != nil {
 		return nil, fmt.Errorf("create fragment directory: %w", err)
 	}
 
 	tempPath := path + ".tmp"
+	fsStep("fragment.create")
 	file, err := os.OpenFile(tempPath, os.O_WRONLY|os.O_CREATE|os.O_TRUNC, 0o600)
 	if err != nil {
 		return nil, fmt.Errorf("open fragment temp file: %w", err)
@@ -173,6 +175,7 @@ func newCompressedJSONLinesWriter(path string, codec CompressionCodec, zstdLevel
 	compressor, err := newCompressionWriter(compressedCounter, codec, zstdLevel)
 	if err != nil {
 		_ = file.Close()
+		fsStep("fragment.remove-temp")
 		_ = os.Remove(tempPath)
 
 		return nil, err
@@ -201,6 +204,7 @@ func (s *compressedJSONLinesWriter) Write(value any) error {
 		return fmt.Errorf("write closed JSONL fragment")
 	}
 
+	fsStep("fragment.write")
 	if err := s.encoder.Encode(value); err != nil {
 		return fmt.Errorf("encode JSONL record %d: %w", s.count+1, err)
 	}
@@ -220,20 +224,26 @@ func (s *compressedJSONLinesWriter) Close() (FileManifest, error) {
 	}
 	s.closed = true
 
+	fsStep("fragment.flush")
 	if err := s.compressor.Close(); err != nil {
 		_ = s.file.Close()
+		fsStep("fragment.remove-temp")
 		_ = os.Remove(s.tempPath)
 
 		return FileManifest{}, fmt.Errorf("finish compressed fragment: %w", err)
 	}
 
+	fsStep("fragment.close")
 	if err := s.file.Close(); err != nil {
+		fsStep("fragment.remove-temp")
 		_ = os.Remove(s.tempPath)
 
 		return FileManifest{}, fmt.Errorf("close fragment file: %w", err)
 	}
 
+	fsStep("fragment.rename")
 	if err := os.Rename(s.tempPath, s.path); err != nil {
+		fsStep("fragment.remove-temp")
 		_ = os.Remove(s.tempPath)
 
 		return FileManifest{}, fmt.Errorf("rename fragment: %w", err)
@@ -253,8 +263,10 @@ func (s *compressedJSONLinesWriter) Abort() {
 	}
 	s.closed = true
 
+	fsStep("fragment.abort-flush")
 	_ = s.compressor.Close()
 	_ = s.file.Close()
+	fsStep("fragment.abort-remove")
 	_ = os.Remove(s.tempPath)
 }
 
